@@ -28,6 +28,7 @@ RULE = ("scenario × graceful period × injection index k; k ranges over every c
 ASSUMPTIONS = ["process death and OS signal timing are runtime; the stop request is the registered handler invoked between two callbacks",
                "Redis recovery after a crash (maintenance) is checked in the Redis part"]
 F2 = "F2-mem-requeue-not-atomic"
+F24 = "F24-redis-finish-leaves-fetch-in-flight"
 
 MS = 1000
 
@@ -84,6 +85,13 @@ async def one_run(sc: dict, graceful: float, k: int | None) -> WorkerRun:
         pass
     for _ in range(6):
         await asyncio.sleep(0)
+    if sc.get("broker") == "rabbit":
+        # on RabbitMQ the in-flight state lives in the channel: "afterwards" is after the worker's connection is closed
+        # (every unacknowledged delivery then returns to its queue — the server's guarantee, assumption set A)
+        await asyncio.sleep(0.3)
+        await run.broker.disconnect()
+        for _ in range(6):
+            await asyncio.sleep(0)
     run.final = {q: run.msg_params(q) for q in set(sc["actors"].values())}
     run.fired = state["fired"]
     return run
@@ -134,6 +142,10 @@ def judge(run: WorkerRun, sc: dict, graceful: float, k, res: Result, label: str)
         terminal_done = [o for o in done_ops if o in ("ack", "nack")]
         if "processing" in places:
             problem = "message still marked in-flight after the worker returned"
+            if sc.get("broker") == "redis" and len(delivers) == len([o for o in done_ops if o in ("ack", "nack", "reject", "requeue")]):
+                # every delivery handed to the runner was disposed of: this mark belongs to a take of the consumer's background
+                # fetch loop that was never handed over — dropped by finish()
+                finding = F24
         elif len(here) > 1:
             problem = "message present more than once"
         elif "ack" in terminal_done and here:
@@ -164,8 +176,10 @@ def judge(run: WorkerRun, sc: dict, graceful: float, k, res: Result, label: str)
 
 
 def _combo(arg) -> Result:
-    si, graceful, deep = arg
+    si, graceful, deep = arg[:3]
     sc = scenarios()[si]
+    if len(arg) > 3:
+        sc = dict(sc, broker=arg[3], name=f"{arg[3]}:{sc['name']}")
     res = Result("C03")
     ref = vtime.run(lambda loop, s=sc, g=graceful: one_run(s, g, None), budget=20_000_000)
     n = ref.runner_snaps[-1][0] - ref.cb0 if ref.runner_snaps else 200
@@ -199,6 +213,9 @@ def run(ctx) -> Result:
     res = Result("C03")
     deep = tier == "thorough" or bool(ctx.get("search"))
     combos = [(si, g, deep) for si in range(len(scenarios())) for g in (0.0, 0.002, 25.0)]
+    # the same stop-at-every-callback enumeration with the worker on the Redis / RabbitMQ brokers (in-process fake servers)
+    for kind in ("redis", "rabbit"):
+        combos += [(si, g, deep, kind) for si in ((0, 1, 2, 4, 5) if deep else (0, 1, 4)) for g in ((0.0, 0.002) if deep else (0.002,))]
     for part in pmap(_combo, combos):
         res.merge(part)
     res.exhaustive = False
